@@ -660,7 +660,9 @@ impl<'a> World<'a> {
         policy.sign_ecdsa = self.signers[s].caps.ecdsa;
         policy.sign_key_spend = self.signers[s].caps.key_spend;
         policy.leaf_allow = self.signers[s].caps.leaves.clone();
-        if self.mon.corruption && self.dec.choose(&format!("high-s:s{}#{}", s, n), 6) == 1 {
+        // (only where the no-panic invariant is what is being checked: size figures and standardness
+        // verdicts are stated for low-S signatures)
+        if self.mon.corruption && self.mon.on("C11") && self.dec.choose(&format!("high-s:s{}#{}", s, n), 6) == 1 {
             policy.ecdsa_high_s = true;
             self.stats.probe("high_s_signer");
         }
